@@ -10,8 +10,8 @@ Mirrors (function names follow the Rust names):
 * `core/src/security/framer/mod.rs`          — `NullFramer::{write_msg_split, try_read_msg, try_read_msgs_from_bytes}`
 
 Import-free apart from the generated constants, total, executable.  Sizes are `Nat`; the places
-where the Rust code computes in `usize`/`u64` and could wrap are modelled with explicit
-`% 2^64` and an explicit `panic` outcome (overflow checks / slice-index panics).
+where the Rust code computes in `usize`/`u64` are modelled with explicit bounds (`two64`); the `panic`
+outcome of `Dec` is kept so that totality ("no decoder ever panics") is a theorem, not a convention.
 -/
 
 namespace Rzmq
@@ -136,8 +136,8 @@ def decodeBuffer (max : Int) : List UInt8 → Dec
       else .frame (mkFrame fl ((tl.drop (hdr - 1)).take raw)) ((tl.drop (hdr - 1)).drop raw)
 
 /-- `decode_frame_from_slice` / `decode_frame_from_bytes` (identical control flow; `minLen`/`hdr`
-lengths are taken per function from the source). `total = header_len + size` is computed in `usize`:
-overflow panics with overflow checks on and, when wrapping, makes the slice range invalid (panic too). -/
+lengths are taken per function from the source). The body-present test is the subtraction form
+`src.len() - header_len < size` (as in `decode_from_buffer`), so nothing can overflow. -/
 def decodeSliceLike (minLen longHdr shortHdr : Nat) (max : Int) (src : List UInt8) : Dec :=
   if src.length < minLen then .needMore
   else match src with
@@ -148,8 +148,7 @@ def decodeSliceLike (minLen longHdr shortHdr : Nat) (max : Int) (src : List UInt
     else
       let raw := rawSize fl tl
       if exceeds max raw then .error
-      else if two64 ≤ hdr + raw then .panic
-      else if tl.length + 1 < hdr + raw then .needMore
+      else if tl.length + 1 - hdr < raw then .needMore
       else .frame (mkFrame fl ((tl.drop (hdr - 1)).take raw)) ((tl.drop (hdr - 1)).drop raw)
 
 def decodeSlice (max : Int) (src : List UInt8) : Dec :=
@@ -162,11 +161,10 @@ def decodeBytes (max : Int) (src : List UInt8) : Dec :=
 inductive Peek where
   | needMore
   | error
-  | panic
   | total (n : Nat)
 deriving DecidableEq, Repr
 
-/-- `ZmtpManualParser::peek_frame_len` (overflow of `header_len + raw_size` = panic under overflow checks) -/
+/-- `ZmtpManualParser::peek_frame_len` (`header_len.checked_add(raw_size)`: overflow is a protocol error) -/
 def peekFrameLen (max : Int) : List UInt8 → Peek
   | [] => .needMore
   | fl :: tl =>
@@ -175,7 +173,7 @@ def peekFrameLen (max : Int) : List UInt8 → Peek
     else
       let raw := rawSize fl tl
       if exceeds max raw then .error
-      else if two64 ≤ hdr + raw then .panic
+      else if two64 ≤ hdr + raw then .error
       else .total (hdr + raw)
 
 -- ---------------------------------------------------------------------------------------------
